@@ -40,6 +40,12 @@ CHECKS.update({
         text="MC_MsgPackFormat checks Decode(Enc(v,w))=v, compactness of Enc(v,0) and prefix-freeness for 105 values at every format threshold x 5 width policies x all prefixes. MC_LoadScript (typed mode) enumerates value x encoding x 16 target types x 3 positions x 2 policy settings, every truncation (thorough) and single-byte corruptions; the spec's decoder decides what damaged bytes mean. The real string and stream readers must deliver exactly the prescribed value / policy outcome / ParsingError.",
         note="Trusted: TLC, harness, the TLA+ transcription of the MessagePack specification. Results for duplicate or exotic map keys and nanoseconds > 999999999 are left unspecified. Known findings: timestamp-96 field order, pre-sizing from declared counts.",
         design_ref="DESIGN.md#c07"),
+    "C20": dict(
+        category="model_checking",
+        technique="TLA+ fault model (Faults: outcome alphabet, fault points) with the fault plan enumerated by TLC from probe runs of the real code; every (scenario, fault kind, position) injected into the real archive in crash-contained children; outcomes validated against the model by TLC",
+        text="For representative and TLC-generated load/save scenarios the harness first measures the fault points of the fault-free run (operator new calls, input bytes, output bytes); MC_Faults enumerates every position of every applicable fault kind (k-th allocation fails, input stream buffer reports EOF or throws at byte k, output stream buffer fails or throws at byte k) plus one position past the end; each run executes in a forked child with a terminate handler, watchdog and address-space cap, with a counting allocator reporting blocks that survive the call. Trace_Faults requires: outcome in {returned, exception}, never terminate/hang/crash, zero leaked blocks, and an exception whenever the fault point is reached (MessagePack is prefix-free; a short write is an error).",
+        note="MessagePack archive only so far. Trusted: TLC, harness allocator/stream doubles. Truncation at every byte of generated documents is covered by C07 (thorough). Level reported as model_checking with TLC state counts; the fault enumeration itself is exhaustive over the counted fault points of each scenario.",
+        design_ref="DESIGN.md#c20"),
 })
 
 NOT_YET = {
